@@ -88,6 +88,61 @@ def run(ctx):
                 sz = kw.get("size")
                 ok = (isinstance(o, ast.Constant) and o.value == want) or (isinstance(sz, ast.Constant) and sz.value == want + 1)
                 res.check(ok and c.args and norm(c.args[0]) == node, "D-ORDER", f, norm(c), f"order={want}", f"{meth} is not restricted to order {want} of the node being updated", loc(v.fi, c))
+        # D-TRIAD: the three-body rule looks up the state of BOTH other members of the 3-node hyperedge in the old state, not in a
+        # population restricted to the pairwise neighbours
+        res.rules["D-TRIAD"] = "the three-body infection tests the old state of both other members of the hyperedge (not a set restricted to pairwise neighbours)"
+        tri_loops = []
+        for lp in ast.walk(sw):
+            if isinstance(lp, ast.For):
+                it = v.inline(lp.iter)
+                if any(isinstance(x, ast.Call) and isinstance(x.func, ast.Attribute) and x.func.attr == "get_incident_edges" for x in ast.walk(it)):
+                    tri_loops.append(lp)
+        def _from_pairwise(e, depth=0):
+            """does the value of `e` derive from get_neighbors(...) - following, for names with several definitions, the
+            definitions that reach the place where the name is read"""
+            src = v.inline(e)
+            if any(isinstance(y, ast.Call) and isinstance(y.func, ast.Attribute) and y.func.attr == "get_neighbors" for y in ast.walk(src)):
+                return True
+            if depth > 3:
+                return False
+            for y in ast.walk(src):
+                if isinstance(y, ast.Name) and isinstance(y.ctx, ast.Load):
+                    use = getattr(y, "_orig", y)
+                    uid = v.cfg_id(use)
+                    defs = [d for d in walk_no_nested(v.fi.node) if isinstance(d, ast.Assign) and any(isinstance(t, ast.Name) and t.id == y.id for t in d.targets)]
+                    if len(defs) < 2 or uid is None:
+                        continue
+                    ids = {v.cfg_id(d): d for d in defs}
+                    for did, d in ids.items():
+                        if did is not None and did != uid and v.cfg.reaches_without(did, uid, set(ids) - {did}) and _from_pairwise(d.value, depth + 1):
+                            return True
+            return False
+
+        for lp in tri_loops:
+            guards_ = [i for i in ast.walk(lp) if isinstance(i, ast.If) and any(isinstance(x, ast.Assign) and isinstance(x.targets[0], ast.Subscript) and norm(x.targets[0].value) == new for b_ in i.body for x in ast.walk(b_))]
+            if not guards_:
+                res.unknown("D-TRIAD", f, norm(lp.iter), "both-partners-old", "the condition of the three-body infection was not recognised", loc(v.fi, lp))
+            for g_ in guards_:
+                t_in = v.inline(g_.test, depth=1)
+                old_reads = [x for x in ast.walk(g_.test) if isinstance(x, ast.Subscript) and isinstance(x.value, ast.Name) and x.value.id == old]
+                restricted = None
+                for x in ast.walk(g_.test):
+                    if isinstance(x, ast.Compare) and any(isinstance(o, (ast.In, ast.NotIn)) for o in x.ops):
+                        for c_ in x.comparators:
+                            if _from_pairwise(c_):
+                                restricted = c_
+                    if isinstance(x, ast.Call) and isinstance(x.func, ast.Attribute) and x.func.attr in ("issubset", "issuperset", "isdisjoint", "intersection"):
+                        for c_ in [x.func.value] + list(x.args):
+                            if _from_pairwise(c_):
+                                restricted = c_
+                if restricted is not None:
+                    res.violation("D-TRIAD", f, norm(g_.test)[:160], "both-partners-old", f"the other members of the 3-node hyperedge are looked up in `{norm(restricted)}`, which only holds pairwise (size-2) neighbours of the node: a member that is not also a pairwise neighbour never counts as infected, so the triangle does not spread", loc(v.fi, g_))
+                elif len(old_reads) >= 2:
+                    res.ok("D-TRIAD", f, norm(g_.test)[:160], "both-partners-old", loc(v.fi, g_))
+                else:
+                    res.unknown("D-TRIAD", f, norm(g_.test)[:160], "both-partners-old", "the condition does not read the old state of two members directly", loc(v.fi, g_))
+        if not tri_loops:
+            res.unknown("D-TRIAD", f, "for triplet in get_incident_edges(node, order=2)", "both-partners-old", "the loop over the 3-node hyperedges was not recognised", loc(v.fi, sw))
         # D-SERIES
         rets = [n for n in walk_no_nested(v.fi.node) if isinstance(n, ast.Return)]
         series = None
